@@ -59,12 +59,74 @@ def check(pid, case, ji):
         return []
 
 
+LINK_PIDS = ("C01", "C02", "C03", "C04", "C05", "C09", "C10", "C13", "C17", "C18", "C19")
+LINK_CASES = {"quick": 70, "thorough": 2500}
+
+
+def link_cases(pid, seed, n):
+    from . import gen, ldcorr
+    import random
+    saved = list(gen.DIRS)
+    gen.DIRS[:] = ldcorr.linkable_dirs()
+    out = []
+    try:
+        prof = dict(props.PROFILES.get(pid, {}))
+        prof.update(ldcorr.LINK_PROFILE)
+        for i in range(n):
+            rnd = random.Random((seed * 7919 + i) * 37 + int(pid[1:]))
+            g = gen.Gen(rnd, prof)
+            doc, opts, ev, partial = g.case_parts()
+            opts = [(k, v if v not in ("", "x/y") else "v") for k, v in opts]
+            out.append(run.Case("L%d" % i, doc, opts, ev, False, False, {"link": True}))
+    finally:
+        gen.DIRS[:] = saved
+    return out
+
+
 def dynamic(pid, tier, seed, cases):
-    return {}
+    """property-specific executed checks; link-level properties: real GNU ld + LdSem correspondence"""
+    res = {"violations": [], "features": {}, "evaluations": 0}
+    if pid in LINK_PIDS:
+        from . import ldcorr, linkmon
+        lc = link_cases(pid, seed, LINK_CASES.get(tier, 70))
+        impl, model = run.run_cases(lc)
+        jobs = []
+        for c in lc:
+            why, job = ldcorr.prepare(c, run.normalise(impl[c.cid]), seed + 17)
+            if why:
+                res["features"]["link-skip:" + why] = res["features"].get("link-skip:" + why, 0) + 1
+            else:
+                jobs.append(job)
+        results = ldcorr.run_jobs(jobs)
+        for r in results:
+            v = r["verdict"]
+            res["features"]["link:" + v] = res["features"].get("link:" + v, 0) + 1
+            res["evaluations"] += 1
+            c = r["job"]["case"]
+            if r["real"].get("status") == "ok":
+                f = linkmon.monitors(c, run.normalise(impl[c.cid]), r["job"], r["real"], r["model"])
+                if pid in f:
+                    res["violations"].append({"case": c, "impl": None, "what": "real GNU ld image: " + "; ".join(f[pid][:4]),
+                                              "universe": r["job"]["universe"].to_json()})
+                if pid == "C19":
+                    lld = r["real"].get("lld") or {}
+                    if lld.get("rc") not in (0, None) and "script.ld:" in lld.get("log", ""):
+                        res["violations"].append({"case": c, "impl": None,
+                                                  "what": "ld.lld rejects the script: " + lld["log"][:300]})
+            elif pid == "C19" and r["real"].get("status") == "ld-fail" and "script.ld:" in r["real"].get("log", "") \
+                    and "syntax error" in r["real"].get("log", ""):
+                res["violations"].append({"case": c, "impl": None,
+                                          "what": "GNU ld rejects the script: " + r["real"]["log"][:300]})
+            if v in ("diff", "ld-fails-only", "model-fails-only", "roundtrip-fail"):
+                res.setdefault("ld_model_mismatch", []).append(
+                    {"case": c.cid, "verdict": v, "diffs": (r.get("diffs") or [])[:4],
+                     "ld_log": r["real"].get("log", "")[:200]})
+    return res
 
 
 def replay_known(pid, k):
     return True
 
 
-CHECKS = {}
+from . import specmon
+CHECKS = dict(specmon.MONITORS)
